@@ -13,4 +13,12 @@ PROPS = {
         "assumptions": ["acyclicity is a hypothesis (a rank function bounded by #terms+2); cyclic input makes the real code overflow its stack and is outside the property's quantifier",
                         "obo and sub_ontology construction paths are covered by the C09 / C14 checks, which compare the same dump"],
     },
+    "C02": {
+        "rule": "same ontology generator as C01 plus annotation facts for the three kinds with numerically overlapping record ids: records without terms (add_* only), repeated facts, facts on inner nodes whose ancestors are already linked through another child, shuffled call order; Builder path and binary v1/v2/v3 path; observables: per-term gene/omim/orpha id sets, per-record direct terms, resolving iterators; inheritance oracle (BFS) in the harness; non-trivial = at least one link to a term that has a parent",
+        "assumptions": ["one kind-generic model function stands for the three textually separate copies link_gene_term / link_omim_disease_term / link_orpha_disease_term; the correspondence check exercises each copy"],
+    },
+    "C15": {
+        "rule": "builder histories with 30-50 % (2/3 of the cases) or ~3 % (1/3) failing calls: add_parent with absent parent / absent child / both (ids < 10^7 and >= 10^7), annotate_* with absent term and existing or fresh record id, interleaved with succeeding calls in shuffled order; compared: every call's Ok/Err, the full read-API dump incl. the resolving-iterator walk under catch_unwind, referential-closure oracle, and equality with the ontology built from the successful calls alone (`same 0 1`); non-trivial = at least one failing call",
+        "assumptions": ["C15_filter_errors is proved generically and instantiated for add_parent histories; for annotate_* histories the per-call theorem C15_annotate_error_no_effect (under the builder invariant) is what is proved"],
+    },
 }
